@@ -1396,11 +1396,16 @@ impl<R: std::io::Read> Decoder<R> {
             Some(0) => return Ok(None),
             Some(remaining) => FrameHeader::read(crc16_reader.by_ref(), self.blocks.streaminfo())
                 .and_then(|header| {
-                // only the last block in a stream may contain <= 14 samples
                 let block_size = u16::from(header.block_size);
-                (u64::from(block_size) == remaining || block_size > 14)
-                    .then_some(header)
-                    .ok_or(Error::ShortBlock)
+                if u64::from(block_size) > remaining {
+                    // a frame may not hold more samples than STREAMINFO has left
+                    Err(Error::TooManySamples)
+                } else {
+                    // only the last block in a stream may contain <= 14 samples
+                    (u64::from(block_size) == remaining || block_size > 14)
+                        .then_some(header)
+                        .ok_or(Error::ShortBlock)
+                }
             })?,
             // if total number of remaining samples isn't known,
             // treat an EOF error as the end of stream
